@@ -122,6 +122,7 @@ def check_invariants(I, inst, R, frame, args, invariants, tmap):
         return out
     seen = set()
     counted = [0]
+    by_type = {}
 
     def walk(v, where, depth=0, S=R):
         if depth > 10 or S.dead:
@@ -130,6 +131,7 @@ def check_invariants(I, inst, R, frame, args, invariants, tmap):
             inv = invariants.get(v.path)
             if inv is not None and v.path in tmap:
                 counted[0] += 1
+                by_type[v.path] = by_type.get(v.path, 0) + 1
                 bad = inv.check(I, v, tmap[v.path], S)
                 for b in bad:
                     out.append({"root": inst["name"], "type": v.path, "where": where, "problem": b})
@@ -161,4 +163,4 @@ def check_invariants(I, inst, R, frame, args, invariants, tmap):
     for i, a in enumerate(args):
         if isinstance(a, Ref) and a.mut:
             walk(a, "arg%d" % i)
-    return [dict(x, checked=counted[0]) for x in out] if out else [{"root": inst["name"], "ok": True, "checked": counted[0]}]
+    return [dict(x, checked=counted[0], types=dict(by_type)) for x in out] if out else [{"root": inst["name"], "ok": True, "checked": counted[0], "types": dict(by_type)}]
